@@ -148,12 +148,15 @@ func (rq *retries) Add(obj any, rev statedb.Revision, origRev statedb.Revision, 
 			numRetries: 0,
 			index:      -1,
 			revIndex:   -1,
+			// The revision of the change that failed originally. It is kept over
+			// the retries of the item, as it is what LowWatermark() reports; the
+			// item is removed with Clear() when the object changes.
+			origRev: origRev,
 		}
 		rq.items[keyStr] = item
 	}
 	item.object = obj
 	item.rev = rev
-	item.origRev = origRev
 	item.delete = delete
 	item.numRetries += 1
 	item.lastError = lastError
